@@ -2,15 +2,16 @@ SPECIFICATION Spec
 CONSTANTS
   P = 2
   M = 100000
-  MaxSegs = 2
+  MaxSegs = 3
   MaxLen = 2
   Bases <- MC_Bases4
   FLens <- MC_FLens
-  Kinds <- MC_KindsAll
+  Kinds <- MC_KindsW
   MaxOps = 3
-  MaxN = 2
+  MaxN = 3
   FileSize = 2
   Chunks <- MC_Chunks
+  MaxAddr = 6
 VIEW View
-INVARIANTS FlatAgree Counters InOrderOnce Placed FailClean Results NoOOB DirtyExact ObjCount
+INVARIANTS DirtyExact FlatAgree Export
 CHECK_DEADLOCK FALSE
